@@ -327,6 +327,11 @@ class Statement(object):
                     raise TranslationError("Address of [{}] does not fit in an 8-bit immediate value".format(
                         self.operand.operand_string), self)
                 self.code_pkg.additional = NumericValue(address.int, size_hint=2)
+            elif self.operand.is_direct():
+                if address.int > 0xFF:
+                    raise TranslationError("Address of [{}] does not fit in a direct (8-bit) address".format(
+                        self.operand.operand_string), self)
+                self.code_pkg.additional = NumericValue(address.int, size_hint=2)
             else:
                 # the operand field of an extended, extended indirect or 16-bit immediate operand is always two bytes
                 self.code_pkg.additional = NumericValue(address.int, size_hint=4)
